@@ -107,6 +107,14 @@ def export_shapes():
            ("forall", [("e1", US)], ("Equals", h(e1), e2)), ("forall", [("u", B4)], ("BVULE", L(0, B4), u)),
            ("Not", ("forall", qa, ("And", ("Or", a, b), ("Not", ("Or", a, b))))),
            ("And", ("forall", qx, ("LT", ("Plus", x, L(1, INT)), y)), ("LT", ("Plus", x, L(1, INT)), y))]
+    # array values with symbolic contents; a user sort inside an array sort only; odd names bound by a quantifier
+    US_ = ("CUSTOM", "U")
+    sh += [("Equals", ("Array", ("type", INT), x), S("arr", ("ARRAY", INT, INT))),
+           ("Equals", S(".def_0", INT), ("Select", ("Array", ("type", INT), ("Plus", y, L(1, INT))), L(3, INT))),
+           ("Equals", S("au1", ("ARRAY", INT, US_)), S("au2", ("ARRAY", INT, US_))),
+           ("Equals", S("an1", ("ARRAY", INT, ("ARRAY", US_, ("CUSTOM", "T")))), S("an2", ("ARRAY", INT, ("ARRAY", US_, ("CUSTOM", "T"))))),
+           ("forall", [("x'", INT), ("idx[0]", INT)], ("LT", S("x'", INT), S("idx[0]", INT))),
+           ("And", ("exists", [("a b", BOOL)], ("Or", S("a b"), a)), ("forall", [("x", INT), ("y", INT)], ("LT", L(0, INT), x)))]
     # binders whose variable order is not the order in which the variables were created
     sh += [("And", ("LT", x, y), ("forall", [("y", INT), ("x", INT)], ("LT", ("Plus", x, y), L(3, INT)))),
            ("Or", ("LT", x, ("Plus", y, S("z", INT))), ("exists", [("z", INT), ("x", INT), ("y", INT)], ("LT", ("Plus", x, y), S("z", INT)))),
